@@ -598,7 +598,7 @@ def run_c17(ctx, res):
         desc = {k: job[k] for k in ("kind", "moltypes", "counts", "n_supplied", "skip_res", "nrewind", "schedule", "plans", "bs_maxiter", "start")}
         if nt and not bad and len(res.samples) < 3 and stats["rewinds"] and (stats["abandoned"] or len(res.samples) < 2):
             res.samples.append(dict(desc, observed=stats))
-        if bad and len(res.violations) < 5 and bad[0] not in {v.finding_key for v in res.violations}:
+        if bad and len(res.violations) < 25 and bad[0] not in {v.finding_key for v in res.violations}:
             res.violations.append(Violation("c17-schedules", _short(f"{bad[1]}  [world {json.dumps(desc, default=str)}]", 900),
                                             inputs=json.loads(json.dumps(desc, default=str)), detail=bad[1], replayed=True, finding_key=bad[0]))
     res.bound = (f"EXHAUSTIVE: every success/failure schedule of the single placement step of length <= {maxlen} (padded with successes: {nsched} distinct) "
@@ -1237,7 +1237,7 @@ def run_c18(ctx, res):
                 res.samples.append(dict(dsc, _k=kind))
             if bad:
                 classes[bad[0]] = classes.get(bad[0], 0) + 1
-            if bad and len(res.violations) < 5 and bad[0] not in {v.finding_key for v in res.violations}:
+            if bad and len(res.violations) < 25 and bad[0] not in {v.finding_key for v in res.violations}:
                 res.violations.append(Violation("c18-selections", _short(f"{bad[1]}  [input {json.dumps(dsc)}]", 900), inputs=dsc, detail=bad[1],
                                                 replayed=True, finding_key=bad[0]))
     res.bound = (f"topology with molecule names {C18_NAMES} (repeated names, interleaved).  BUILD FILES (exhaustive): one [ molecule ] block x one directive for every "
@@ -1694,7 +1694,7 @@ def run_c15(ctx, res):
             res.samples.append(desc)
         for bad in bads:
             classes[bad[0]] = classes.get(bad[0], 0) + 1
-            if len(res.violations) < 5 and bad[0] not in {v.finding_key for v in res.violations}:
+            if len(res.violations) < 25 and bad[0] not in {v.finding_key for v in res.violations}:
                 res.violations.append(Violation("c15-templates", _short(f"{bad[1]}  [{job['what']}]", 900), inputs=desc, detail=bad[1], replayed=True, finding_key=bad[0]))
     nvs = len(c15_vs_residues(ctx))
     res.bound = (f"{len(jobs)} topologies read from files and run through GenerateTemplates as gen_coords does: 13 residue shapes (1 atom, chains 2-5 with bonds/constraints/angles, "
@@ -2006,7 +2006,7 @@ def run_c11(ctx, res):
             res.samples.append(desc)
         for bad in bads:
             classes[bad[0]] = classes.get(bad[0], 0) + 1
-            if len(res.violations) < 5 and bad[0] not in {v.finding_key for v in res.violations}:
+            if len(res.violations) < 25 and bad[0] not in {v.finding_key for v in res.violations}:
                 res.violations.append(Violation("c11-itp-roundtrip", _short(f"{bad[1]}  [{json.dumps(desc)}]", 900), inputs=desc, detail=bad[1], replayed=True, finding_key=bad[0]))
     res.bound = (f"{len(jobs)} worlds = 4 force fields (3 blocks of 2-4 atoms with bonds, constraints, angles, proper/improper dihedrals, exclusions, pairs, virtual_sites2, virtual_sitesn, "
                  "#ifdef- and #ifndef-guarded bonds/constraints/angles/dihedrals, masses present and absent, nrexcl 1-3; link sets: plain, guarded angles/dihedrals/constraints, "
